@@ -217,6 +217,13 @@ def explicit_cases(draw, tier="quick"):
     cols = [draw(gen.values_for(ax["pairs"], n, n, allow_nan=allow_nan)) for ax in axes]
     rows = [[cols[j][i] for j in range(d)] for i in range(n)]
     wkind, weights = draw(gen.weights_for(n, kinds=("none", "int", "dyadic", "float", "signed", "signed")))
+    if wkind == "signed" and n and draw(st.booleans()):
+        # rows far outside every axis carrying negative weight: the missed weight is then negative
+        k = draw(st.integers(1, 2))
+        for _ in range(k):
+            rows.append([ax["pairs"][-1][1] + 3 * (ax["pairs"][-1][1] - ax["pairs"][0][0]) for ax in axes])
+            weights = list(weights) + [-draw(st.integers(1, 40)) / 2]
+        n = len(rows)
     entries = {2: ["h", "h", "h_lists", "h2", "h2", "h2_lists"], 3: ["h", "h_lists", "h3", "h3_cols", "h3_cols"], 4: ["h", "h_lists"]}[d]
     entry = draw(st.sampled_from(entries))
     if entry == "h3_cols" and n == 0:
